@@ -595,6 +595,8 @@ fn run_shard(
           || line.starts_with("REPORT")
           || line.contains("overflowed its stack")
           || line.contains("AddressSanitizer")
+          || line.contains("ThreadSanitizer")
+          || (line.starts_with("    #") && b.iter().any(|l| l.contains("ThreadSanitizer")))
           || line.contains("memory allocation")
           || line.contains("ALLOC-MONITOR")
         {
@@ -672,7 +674,18 @@ fn run_shard(
         .cloned()
         .collect()
     };
-    let kind = if let Some(k) = killed {
+    // a ThreadSanitizer report: "WARNING: ThreadSanitizer: data race (pid=N)" followed by stacks
+    let tsan: Option<(String, Vec<String>)> = {
+      let b = errbuf.lock().unwrap();
+      b.iter().position(|l| l.contains("WARNING: ThreadSanitizer:")).map(|i| {
+        let what = b[i].split("ThreadSanitizer:").nth(1).unwrap_or("").split('(').next().unwrap_or("").trim().replace(' ', "-");
+        let frames: Vec<String> = b[i + 1..].iter().filter(|l| l.starts_with("    #")).take(60).cloned().collect();
+        (what, frames)
+      })
+    };
+    let kind = if let Some((what, _)) = &tsan {
+      format!("tsan-{}", what)
+    } else if let Some(k) = killed {
       k.to_string()
     } else if let Some(s) = sig {
       if err_tail.iter().any(|l| l.contains("overflowed its stack") || l.contains("AddressSanitizer: stack-overflow")) {
@@ -694,7 +707,7 @@ fn run_shard(
     };
     match last_idx {
       Some(i) => {
-        crashes.push(json!({"case": i, "kind": kind, "call": last_tag, "stderr": err_tail}));
+        crashes.push(json!({"case": i, "kind": kind, "call": last_tag, "stderr": err_tail, "tsan_frames": tsan.as_ref().map(|t| t.1.clone())}));
         skip.push(i);
       }
       None => {
